@@ -37,8 +37,16 @@ func genC20(verifSeed int64, tier string, idx int) *core.Scenario {
 	if r.Intn(4) == 0 {
 		maxNodes = 12 // medium: a few KiB encoded
 	}
+	shrinkNew := r.Intn(2) == 0 // the new document is shorter than what earlier (possibly killed) stores wrote
 	for i := 0; i < 3; i++ {
-		d := genDoc(r, fmt.Sprintf("d%d", i), maxNodes)
+		mn := maxNodes
+		if shrinkNew && i == 0 {
+			mn = r.Intn(2)
+		}
+		if shrinkNew && i > 0 {
+			mn = maxNodes*2 + 2
+		}
+		d := genDoc(r, fmt.Sprintf("d%d", i), mn)
 		b, err := proto.MarshalOptions{Deterministic: true}.Marshal(d)
 		if err != nil {
 			panic(err)
@@ -56,7 +64,7 @@ func genC20(verifSeed int64, tier string, idx int) *core.Scenario {
 			}
 		}
 	}
-	if sp.DirState == "exists" && r.Intn(3) == 0 {
+	if sp.DirState == "exists" && r.Intn(2) == 0 {
 		// leftovers: an earlier store of the same identifier died at some point
 		sp.Pre = append(sp.Pre, Step{K: "CrashedStore", D: 2, ID: 0, Dmg: fmt.Sprint(r.Intn(1 << 20)), NoClobber: r.Intn(2) == 0})
 	}
